@@ -31,8 +31,15 @@ impl DeadCodeEliminator {
     }
 
     pub(super) fn eliminate_in_block(&mut self, stmts: &mut Vec<TypedStmt>) -> bool {
-        for stmt in stmts.iter_mut() {
-            self.eliminate_in_stmt(stmt);
+        // the last statement of a block decides the block's value (implicit return): an
+        // `if` there must keep its shape, and nothing may be removed from behind it
+        let last = stmts.len().saturating_sub(1);
+        for (i, stmt) in stmts.iter_mut().enumerate() {
+            if i == last {
+                self.eliminate_in_tail_stmt(stmt);
+            } else {
+                self.eliminate_in_stmt(stmt);
+            }
         }
 
         // cut off everything after a terminator
@@ -49,8 +56,11 @@ impl DeadCodeEliminator {
         });
 
         // also remove empty blocks
+        let mut remaining = stmts.len();
         stmts.retain(|stmt| {
-            if let TypedStmtKind::Block(inner) = &stmt.kind
+            remaining -= 1;
+            if remaining > 0
+                && let TypedStmtKind::Block(inner) = &stmt.kind
                 && inner.is_empty()
             {
                 self.stats.dead_code_eliminated += 1;
@@ -60,6 +70,24 @@ impl DeadCodeEliminator {
         });
 
         stmts.is_empty()
+    }
+
+    // statement in tail position: only its children are optimised
+    fn eliminate_in_tail_stmt(&mut self, stmt: &mut TypedStmt) {
+        match &mut stmt.kind {
+            TypedStmtKind::If {
+                then_branch,
+                else_branch,
+                ..
+            } => {
+                self.eliminate_in_stmt(then_branch);
+                if let Some(else_b) = else_branch {
+                    self.eliminate_in_stmt(else_b);
+                }
+            }
+            TypedStmtKind::While { body, .. } => self.eliminate_in_stmt(body),
+            _ => self.eliminate_in_stmt(stmt),
+        }
     }
 
     pub(super) fn eliminate_in_stmt(&mut self, stmt: &mut TypedStmt) {
